@@ -455,6 +455,8 @@ class SimRun:
         self.poll = 0
         self._installed = False
         self.subprocess_calls = 0
+        self.protocol_choices = []
+        self._real_getprotocol = None
 
     def count(self, k, n=1):
         self.counters[k] = self.counters.get(k, 0) + n
@@ -525,7 +527,27 @@ class SimRun:
                 self.sim.on_switch = self.forksim.mem.on_switch
             self.forksim.install()
         self._patch_subprocess()
+        self._patch_getprotocol()
         self.accept_actor = self.sim.spawn(self._accept_loop, "accept")
+
+    def _patch_getprotocol(self):
+        """Observe (from outside) which protocol class answers each connection."""
+        pm = pyg.ProtocolMultiplexer
+        self._real_getprotocol = pm.getProtocol
+        run = self
+
+        def getProtocol(request, server, requesthandler, rfile, wfile, config):
+            addr = getattr(requesthandler, "client_address", None)
+            try:
+                p = run._real_getprotocol(request, server, requesthandler, rfile, wfile, config)
+            except BaseException as e:
+                if not isinstance(e, (sched.SimAbort, sched.SimCrash, sched.SimProcessExit)):
+                    run.protocol_choices.append((addr, "EXC:" + type(e).__name__, request))
+                raise
+            run.protocol_choices.append((addr, type(p).__name__ if p is not None else None, request))
+            return p
+
+        pm.getProtocol = getProtocol
 
     def _patch_subprocess(self):
         import subprocess
@@ -584,6 +606,8 @@ class SimRun:
         finally:
             if self.forksim is not None:
                 self.forksim.uninstall()
+            if self._real_getprotocol is not None:
+                pyg.ProtocolMultiplexer.getProtocol = self._real_getprotocol
             if getattr(self, "_real_subprocess_run", None) is not None:
                 import subprocess
                 subprocess.run = self._real_subprocess_run
@@ -743,10 +767,11 @@ def copy_tree(src, dst):
 
 def one_shot(root, request, *, tls=False, conf=None, handlers="default", seed=0,
              servertype="ThreadingTCPServer", start=sched.EPOCH, timeout=60,
-             half_close=True, natural_order=False, epoch=0):
+             half_close=True, natural_order=False, epoch=0, server_tls=None):
     """Reference server: the same pygopherd code, one request, alone, fresh
     module state, no faults.  Returns (response bytes, SimRun)."""
-    run = SimRun(root, Tape(replay=[]), seed, servertype=servertype, tls=tls, conf=conf,
+    run = SimRun(root, Tape(replay=[]), seed, servertype=servertype,
+                 tls=tls if server_tls is None else server_tls, conf=conf,
                  handlers=handlers, start=start, timeout=timeout)
     run.fs.natural_order = natural_order
     run.fs.epoch = epoch
